@@ -23,6 +23,14 @@ INFO = {
 
 MATCH = {2: 1, 3: 1, 5: 3}  # prediction index -> reference index (1-based chains)
 VOXELS = ["0", "P1", "P2", "P3", "P4", "P5"]
+# (n_ref, n_pred, matching): the quick tier analyses the first; the thorough tier all of them
+CONFIGS = [
+    (3, 5, {2: 1, 3: 1, 5: 3}),  # many-to-one, unmatched first/middle prediction, unmatched reference R2
+    (3, 5, {}),  # nothing matched: every prediction gets a fresh label
+    (3, 3, {1: 3, 2: 2, 3: 1}),  # everything matched, order reversed: no fresh label at all
+    (1, 1, {}),  # the smallest pair
+    (2, 4, {4: 2}),  # only the last prediction matched
+]
 
 
 def infeasible(slacks) -> bool:
@@ -33,8 +41,9 @@ def infeasible(slacks) -> bool:
     return False
 
 
-def setup(prog, IN: str, voxel: str):
-    refs, preds = chains(3, 5)
+def setup(prog, IN: str, voxel: str, cfg=None):
+    n_ref, n_pred, MATCH = cfg or CONFIGS[0]
+    refs, preds = chains(n_ref, n_pred)
     m, pmax = refs[-1], preds[-1]
     L = LBLMAX[IN]
     domain = [Poly.const(L) - m, Poly.const(L) - pmax]
@@ -42,20 +51,20 @@ def setup(prog, IN: str, voxel: str):
     ucls = prog.cls("utils.processing_pair:UnmatchedInstancePair")
     lmcls = prog.cls("utils.instancelabelmap:InstanceLabelMap")
     pred_arr = VoxelArr("PRED", vval, IN, pmax)
-    ref_arr = VoxelArr("REF", refs[1], IN, m)
+    ref_arr = VoxelArr("REF", refs[min(1, n_ref - 1)], IN, m)
     pair = Obj(ucls, {
         "_prediction_arr": pred_arr,
         "_reference_arr": ref_arr,
         "_ref_labels": tuple(LV(r, IN, "nps") for r in refs),
         "_pred_labels": tuple(LV(p, IN, "nps") for p in preds),
-        "n_prediction_instance": 5,
-        "n_reference_instance": 3,
+        "n_prediction_instance": n_pred,
+        "n_reference_instance": n_ref,
     })
     lm = Obj(lmcls, {"labelmap": {LV(preds[p - 1]): LV(refs[r - 1]) for p, r in MATCH.items()}})
     return refs, preds, domain, pair, lm, pred_arr, ref_arr
 
 
-def run_relabel(ctx: Ctx, IN: str, voxel: str):
+def run_relabel(ctx: Ctx, IN: str, voxel: str, cfg=None):
     prog = ctx.prog
     f = prog.func("instance_matcher:map_instance_labels")
     mcls = prog.cls("utils.processing_pair:MatchedInstancePair")
@@ -63,7 +72,7 @@ def run_relabel(ctx: Ctx, IN: str, voxel: str):
     holder = []
 
     def make(prefix):
-        refs, preds, domain, pair, lm, pa, ra = setup(prog, IN, voxel)
+        refs, preds, domain, pair, lm, pa, ra = setup(prog, IN, voxel, cfg)
         args = {}
         for p in f.call_params:
             n = p.name.lower()
@@ -90,9 +99,12 @@ def run_relabel(ctx: Ctx, IN: str, voxel: str):
 def check_relabel(ctx: Ctx):
     n_paths = 0
     f = None
-    for IN in ("u8", "u16", "u32", "u64"):
-        for voxel in VOXELS:
-            f, runs = run_relabel(ctx, IN, voxel)
+    cfgs = CONFIGS if ctx.tier == "thorough" else CONFIGS[:1]
+    for ci, IN, voxel in [(ci, IN, v) for ci in range(len(cfgs)) for IN in ("u8", "u16", "u32", "u64") for v in ["0"] + [f"P{k}" for k in range(1, cfgs[ci][1] + 1)]]:
+        if True:
+            cfg = cfgs[ci]
+            MATCH = cfg[2]
+            f, runs = run_relabel(ctx, IN, voxel, cfg)
             for out, (it, refs, preds, domain, pa, ra) in runs:
                 slacks = list(domain)
                 opaque = False
@@ -106,7 +118,7 @@ def check_relabel(ctx: Ctx):
                     continue
                 n_paths += 1
                 dtxt = "; ".join(f"{norm(nd) if isinstance(nd, ast.AST) else '?'}={d}" for nd, v, d in out.decisions)
-                base = f"{f.qual}:dtype={IN},voxel={voxel}"
+                base = f"{f.qual}:dtype={IN},voxel={voxel}" + (f",config={ci}" if ci else "")
                 construct = base + (f"[{dtxt}]" if dtxt else "")
                 m = refs[-1]
                 if out.kind == "raise":
@@ -154,7 +166,7 @@ def check_relabel(ctx: Ctx):
                             else:
                                 ctx.undecided("R04.2", f, out.node, construct + ":fresh", "freshness of the label not decided", {"label": repr(po.value)})
                         it.root.__dict__.setdefault("fresh_out", {})
-                        ctx.notes.append((IN, k, dtxt, po.value))
+                        ctx.notes.append((f"{IN}" + (f",config={ci}" if ci else ""), k, dtxt, po.value))
                 # R04.4 containers
                 seen = set()
                 for evn in it.root.events:
